@@ -209,6 +209,22 @@ func checkC10(c *Ctx) {
 							}
 						}
 					}
+					if isBoolMap && (vName == "" || vName == "_") {
+						// the entry's value is discarded: presence alone decides, so an entry stored as false (omitted, or
+						// denied by a permission tag) enables the emission whenever `ok` can do so positively
+						bf := boolTable(info, ifs.Cond)
+						if bf.has(okName) {
+							fixed := map[string]bool{okName: true}
+							for _, a := range bf.atoms {
+								if a != okName {
+									fixed[a] = false
+								}
+							}
+							if okf, _ := bf.forAll(fixed, false); !okf {
+								return false
+							}
+						}
+					}
 					if isBoolMap && vName != "" && vName != "_" {
 						// truth table of the guard: an entry that is present with value false (omitted / not
 						// permitted) never enables the emission; a missing entry under a restricting Select
